@@ -783,6 +783,7 @@ def rule_r10(ctx, cg: CallGraph) -> RuleResult:
         rr.ok("package", "no memoised function")
         return rr
     per_page = CONFIRMED_PER_PAGE | CONFIRMED_PER_PARSE
+    lua_callbacks = set(cg.lua_helpers) | {d for d, _, _ in ctx.index.all_functions() if d.startswith("luaexec.call_lua_sandbox.make_frame.")}
     for dotted, m, f in memo:
         hit = None
         for callee in sorted(cg.closure([dotted])):
@@ -794,6 +795,13 @@ def rule_r10(ctx, cg: CallGraph) -> RuleResult:
                     break
             if hit:
                 break
+        if dotted in lua_callbacks:
+            rr.bad(Finding("C09.R10", m.relpath, dotted, "@lru_cache on " + dotted.split(".")[-1],
+                           "this function is handed to the Lua sandbox as a callback and is memoised: every invocation that calls it with the "
+                           "same arguments receives the very same (mutable) table, so what one module changes in it is seen by later "
+                           "invocations and pages -- the per-invocation clone and the resets only cover tables reachable from the sandbox "
+                           "environment", f.lineno))
+            continue
         if hit:
             callee, a, node = hit
             rr.bad(Finding("C09.R10", m.relpath, dotted, "@lru_cache on {} -> {}: {}".format(dotted.split(".")[-1], callee, unparse(node)[:50]),
